@@ -7,6 +7,7 @@ import (
 	"encoding/json"
 	"errors"
 	"fmt"
+	"io"
 	"runtime"
 	"sort"
 	"strings"
@@ -15,6 +16,8 @@ import (
 	"time"
 
 	"github.com/samaritan-proxy/samaritan/config"
+	"google.golang.org/grpc/codes"
+	"google.golang.org/grpc/status"
 	"pgregory.net/rapid"
 
 	"verif/harness/vh"
@@ -36,6 +39,7 @@ type dop struct {
 type discCase struct {
 	StartDown bool  `json:"start_down"` // stream creation fails until the first "up"
 	RealRun   bool  `json:"real_run"`   // use the real Run (≈1s back-off) instead of the harness retry loop
+	ErrKind   int   `json:"err_kind,omitempty"` // what the scripted failures return: see (*server).fail
 	Ops       []dop `json:"ops"`
 }
 
@@ -64,7 +68,7 @@ func (s *stream) Send(sub, unsub []string) error {
 	s.mu.Lock()
 	defer s.mu.Unlock()
 	if s.broken {
-		return errors.New("stream broken")
+		return s.srv.fail("stream broken")
 	}
 	if s.sendLeft == 0 {
 		s.broken = true
@@ -73,7 +77,7 @@ func (s *stream) Send(sub, unsub []string) error {
 		default:
 			close(s.recvFail)
 		}
-		return errors.New("scripted send failure")
+		return s.srv.fail("scripted send failure")
 	}
 	if s.sendLeft > 0 {
 		s.sendLeft--
@@ -88,7 +92,7 @@ func (s *stream) Recv() error {
 		s.mu.Lock()
 		s.broken = true
 		s.mu.Unlock()
-		return errors.New("scripted recv failure")
+		return s.srv.fail("scripted recv failure")
 	case <-s.srv.ctx.Done():
 		return s.srv.ctx.Err()
 	}
@@ -146,6 +150,31 @@ type server struct {
 	streams       []*stream
 	lastTouch     time.Time
 	creations     int
+	errKind       int
+}
+
+// fail builds the error of a scripted failure. A gRPC stream reports a failure of the peer or of the transport with any of
+// these while the client's own context is alive: a plain error, io.EOF (stream closed by the server), a status with code
+// Unavailable / Canceled (the server or a proxy in between reset the stream) / DeadlineExceeded / Internal, or the bare
+// context errors some interceptors hand through.
+func (srv *server) fail(msg string) error {
+	switch srv.errKind {
+	case 1:
+		return io.EOF
+	case 2:
+		return status.Error(codes.Canceled, msg)
+	case 3:
+		return status.Error(codes.Unavailable, msg)
+	case 4:
+		return context.Canceled
+	case 5:
+		return status.Error(codes.DeadlineExceeded, msg)
+	case 6:
+		return context.DeadlineExceeded
+	case 7:
+		return status.Error(codes.Internal, msg)
+	}
+	return errors.New(msg)
 }
 
 func (srv *server) touch() {
@@ -160,11 +189,11 @@ func (srv *server) maker(ctx context.Context) (config.VerifStream, error) {
 	srv.creations++
 	srv.lastTouch = time.Now()
 	if srv.down {
-		return nil, errors.New("scripted: discovery server down")
+		return nil, srv.fail("scripted: discovery server down")
 	}
 	if srv.failCreate > 0 {
 		srv.failCreate--
-		return nil, errors.New("scripted creation failure")
+		return nil, srv.fail("scripted creation failure")
 	}
 	s := &stream{srv: srv, id: len(srv.streams), sendLeft: srv.nextSendCap, snapDelay: srv.nextSnapDelay, recvFail: make(chan struct{})}
 	srv.nextSendCap = -1
@@ -199,7 +228,7 @@ func svcName(i int) string { return fmt.Sprintf("svc%02d", i) }
 
 func checkDisc(c discCase) (inf discInfo, v *verdict) {
 	ctx, cancel := context.WithCancel(context.Background())
-	srv := &server{ctx: ctx, nextSendCap: -1, down: c.StartDown, lastTouch: time.Now()}
+	srv := &server{ctx: ctx, nextSendCap: -1, down: c.StartDown, lastTouch: time.Now(), errKind: c.ErrKind}
 	cl := config.VerifNewSvcDiscoveryClient("verif", srv.maker)
 	runDone := make(chan struct{})
 	go func() {
@@ -453,7 +482,7 @@ func filterStacks(s string) string {
 }
 
 func genDisc(t *rapid.T, realRun bool) discCase {
-	c := discCase{StartDown: rapid.IntRange(0, 2).Draw(t, "startdown") == 0, RealRun: realRun}
+	c := discCase{StartDown: rapid.IntRange(0, 2).Draw(t, "startdown") == 0, RealRun: realRun, ErrKind: rapid.SampledFrom([]int{0, 0, 1, 2, 2, 3, 4, 5, 6, 7}).Draw(t, "errkind")}
 	n := rapid.IntRange(1, 25).Draw(t, "n")
 	if realRun {
 		n = rapid.IntRange(1, 8).Draw(t, "n2")
